@@ -45,7 +45,7 @@ func appendCall(v ssa.Value) (base ssa.Value, elems []ssa.Value, ok bool) {
 
 // C11 — a phenotype expresses exactly the enabled part of its genome.
 func C11(p *Prog, r *Run) {
-	r.Explanation = "Decided: (1) Genesis provenance on every path of its loops: one NewNNodeCopy(node, node.Trait) per genome node, appended to the all-list always, to the input list exactly for Input/Bias nodes and to the output list exactly for Output nodes, recorded as the node's PhenotypeAnalogue; one NewLinkWithTrait(gene trait, gene weight, analogue of in-node, analogue of out-node, gene recurrence) per gene, exactly when the gene is enabled, appended once to the target's Incoming and once to the source's Outgoing; control nodes only for enabled modules, wired to the analogues of the listed inputs/outputs; the network is assembled from exactly those lists and stored as the genome's phenotype; (2) Organism.Phenotype builds the network iff the cache is empty and stores it, UpdatePhenotype always rebuilds; (3) NodeCount = len(allNodes)+len(controlNodes), LinkCount sums Incoming of the base nodes plus Incoming and Outgoing of the control nodes, Complexity is their sum; (4) the graph view delegates to edgeBetween with the right direction flag and iterates allNodesMIMO, Node returns the node found by the id lookup in allNodesMIMO (the nodeWithID helper or the same search written out / inlined) or nil, From/To return graph.Empty for an absent id; (5) no method with a gonum interface result wraps a possibly-nil pointer (typed nil); (6) From/To list a control node exactly when the scan of its links finds the id, for every control node and every present node; (7) Genesis fails only for a genome without genes or without output nodes; (8) From lists the OutNode of every Outgoing link and To the InNode of every Incoming link of the node (one listing per link, whole list, before any result), and edgeBetween for two ordinary nodes returns nil only after a list holding every link of the asked direction was scanned to its end with every candidate mismatching (directed u->v; undirected both directions). (9) when exactly one id is an ordinary node edgeBetween answers nil only after the matching link list of the control node selected by the other id (Incoming for node->module, Outgoing for module->node; both for an undirected query) was compared completely, or all control nodes were looked at; every link edgeBetween returns was compared equal at its far end with the right id and, for a directed query, leads from u to v; HasEdgeFromTo/HasEdgeBetween/Weight answer `the lookup found a link` (Weight with that link's weight); Nodes lists every element of allNodesMIMO once; nodeWithID returns only a node whose id matched; the node lists of Genesis start empty, the plain network is built only without control genes, and every module link is appended once to the control node's own list. Not decided: that the link returned for a pair joined by several links (parallel forward and recurrent genes) is a particular one of them; uniqueness of node ids is assumed."
+	r.Explanation = "Decided: (1) Genesis provenance on every path of its loops: one NewNNodeCopy(node, node.Trait) per genome node, appended to the all-list always, to the input list exactly for Input/Bias nodes and to the output list exactly for Output nodes, recorded as the node's PhenotypeAnalogue; one NewLinkWithTrait(gene trait, gene weight, analogue of in-node, analogue of out-node, gene recurrence) per gene, exactly when the gene is enabled, appended once to the target's Incoming and once to the source's Outgoing; control nodes only for enabled modules, wired to the analogues of the listed inputs/outputs; the network is assembled from exactly those lists and stored as the genome's phenotype; (2) Organism.Phenotype builds the network iff the cache is empty and stores it, UpdatePhenotype always rebuilds; (3) NodeCount = len(allNodes)+len(controlNodes), LinkCount sums Incoming of the base nodes plus Incoming and Outgoing of the control nodes, Complexity is their sum; (4) the graph view delegates to edgeBetween with the right direction flag and iterates allNodesMIMO, Node returns the node found by the id lookup in allNodesMIMO (the nodeWithID helper or the same search written out / inlined) or nil, From/To return graph.Empty for an absent id; (5) no method with a gonum interface result wraps a possibly-nil pointer (typed nil); (6) From/To list a control node exactly when the scan of its links finds the id, for every control node and every present node; (7) Genesis fails only for a genome without genes or without output nodes; (8) From lists the OutNode of every Outgoing link and To the InNode of every Incoming link of the node (one listing per link, whole list, before any result), and edgeBetween for two ordinary nodes returns nil only after a list holding every link of the asked direction was scanned to its end with every candidate mismatching (directed u->v; undirected both directions). (9) when exactly one id is an ordinary node edgeBetween answers nil only after the matching link list of the control node selected by the other id (Incoming for node->module, Outgoing for module->node; both for an undirected query) was compared completely, or all control nodes were looked at; every link edgeBetween returns was compared equal at its far end with the right id and, for a directed query, leads from u to v; HasEdgeFromTo/HasEdgeBetween/Weight answer `the lookup found a link` (Weight with that link's weight); Nodes lists every element of allNodesMIMO once; nodeWithID returns only a node whose id matched (also where it records the position of the match and returns the element there) and, where that helper exists, answers nil only after the whole of allNodesMIMO was compared without a match; the node lists of Genesis start empty, the plain network is built only without control genes, and every module link is appended once to the control node's own list. Not decided: that the link returned for a pair joined by several links (parallel forward and recurrent genes) is a particular one of them; uniqueness of node ids is assumed."
 	gen := p.Func(PkgG, "Genome.Genesis")
 	r.Fn(FuncName(gen))
 	tm := NewTermer(gen)
@@ -66,27 +66,32 @@ func C11(p *Prog, r *Run) {
 		}
 		plain := nets[0].Common().Args
 		mod := nets[1].Common().Args
-		inPhi, _ := plain[0].(*ssa.Phi)
-		outPhi, _ := plain[1].(*ssa.Phi)
-		allPhi, _ := plain[2].(*ssa.Phi)
-		if inPhi == nil || outPhi == nil || allPhi == nil {
+		// the three lists: loop-carried locals (header phis) or fields of a privately held struct-valued local (robust_c11.go)
+		locals := structLocals(gen)
+		loops := Loops(gen)
+		inV := c11ListVarOf(gen, locals, loops, plain[0])
+		outV := c11ListVarOf(gen, locals, loops, plain[1])
+		allV := c11ListVarOf(gen, locals, loops, plain[2])
+		if inV == nil || outV == nil || allV == nil {
 			r.Undecided("Genesis.lists", p.Pos(nets[0].Pos()), "the node lists passed to NewNetwork are not loop-carried lists")
 			return
 		}
-		r.Check(mod[0] == plain[0] && mod[1] == plain[1] && mod[2] == plain[2], "Genesis.assembly.same-lists", p.Pos(nets[1].Pos()), "modular and plain networks get the same three node lists", "NewModularNetwork is not given the same in/out/all lists as NewNetwork")
+		r.Check(inV.final(mod[0]) && outV.final(mod[1]) && allV.final(mod[2]), "Genesis.assembly.same-lists", p.Pos(nets[1].Pos()), "modular and plain networks get the same three node lists", "NewModularNetwork is not given the same in/out/all lists as NewNetwork")
 		r.Check(isParamIdx(tm.Of(plain[3]), 1) && isParamIdx(tm.Of(mod[4]), 1), "Genesis.assembly.id", p.Pos(nets[0].Pos()), "network id from the parameter", "the network id is not the netId parameter")
 		// the four lists start empty and change only by appends (which the path rules below tie to the nodes): a list
 		// made with a length holds nil nodes in front of the expressed ones
 		emptyStart := ""
-		for i, lv := range []ssa.Value{plain[0], plain[1], plain[2], mod[3]} {
-			w := phiWeb(lv)
-			for _, f := range w.Feeders {
-				if _, _, isApp := appendCall(f); isApp {
-					continue
-				}
-				if !c11IsEmptyList(f) {
-					emptyStart = fmt.Sprintf("%s list starts as %s", []string{"input", "output", "all-nodes", "control-node"}[i], tm.Of(f))
-				}
+		for i, lv := range []*c11ListVar{inV, outV, allV} {
+			if s := lv.startsEmpty(tm); s != "" {
+				emptyStart = fmt.Sprintf("%s list starts as %s", []string{"input", "output", "all-nodes"}[i], s)
+			}
+		}
+		for _, f := range phiWeb(mod[3]).Feeders {
+			if _, _, isApp := appendCall(f); isApp {
+				continue
+			}
+			if !c11IsEmptyList(f) {
+				emptyStart = fmt.Sprintf("control-node list starts as %s", tm.Of(f))
 			}
 		}
 		r.Check(emptyStart == "", "Genesis.lists.empty-start", p.Pos(gen.Pos()), "the input, output, all-nodes and control-node lists start empty and only grow by appends", "a node list of the network does not start empty ("+emptyStart+"): the network gets entries that are no expressed genome node")
@@ -106,8 +111,8 @@ func C11(p *Prog, r *Run) {
 		}
 		r.Check(plainOnly, "Genesis.assembly.plain-without-modules", p.Pos(nets[0].Pos()), "NewNetwork (no control nodes) only when the genome has no control genes", "the network without control nodes is built although the genome may have control genes: enabled modules are not expressed")
 		// --- node loop
-		nodeLoop := InnermostLoop(Loops(gen), inPhi.Block())
-		if nodeLoop == nil || nodeLoop.Header != inPhi.Block() || outPhi.Block() != inPhi.Block() || allPhi.Block() != inPhi.Block() {
+		nodeLoop := inV.loop
+		if nodeLoop == nil || outV.loop != nodeLoop || allV.loop != nodeLoop {
 			r.Undecided("Genesis.node-loop", p.Pos(gen.Pos()), "the three lists are not carried by one loop")
 			return
 		}
@@ -169,18 +174,9 @@ func C11(p *Prog, r *Run) {
 					isOut = true
 				}
 			}
-			appended := func(ph *ssa.Phi) (changed, ok bool) {
-				nv := ip.NextValue(ph)
-				if nv == ssa.Value(ph) {
-					return false, true
-				}
-				base, elems, isApp := appendCall(nv)
-				sub := &IterPath{Blocks: ip.Blocks[:len(ip.Blocks)-1], End: "partial"}
-				return true, isApp && sub.Resolve(base) == ssa.Value(ph) && len(elems) == 1 && elems[0] == node
-			}
-			cAll, okAll := appended(allPhi)
-			cIn, okIn := appended(inPhi)
-			cOut, okOut := appended(outPhi)
+			cAll, okAll := allV.appended(ip, node)
+			cIn, okIn := inV.appended(ip, node)
+			cOut, okOut := outV.appended(ip, node)
 			okAn := analogue != nil && analogue.Val == node && tm.Of(analogue.Addr.(*ssa.FieldAddr).X).String() == "recv.Nodes[*]"
 			// completeness: a path that skips the input (output) list must have ruled out the input and bias (output) roles
 			if !cIn && !(notRole[cInput] && notRole[cBias]) {
@@ -448,7 +444,7 @@ func C11(p *Prog, r *Run) {
 		r.Check(okC, "Complexity", p.Pos(cx.Pos()), "NodeCount()+LinkCount()", "Complexity is not NodeCount()+LinkCount()")
 	})
 
-	r.Rule("C11.4", "graph view delegation: Edge, WeightedEdge, Weight, HasEdgeFromTo use the directed lookup, HasEdgeBetween the undirected one, and answer exactly `a link was found` (Weight: with the weight of that link); Node/Nodes cover allNodesMIMO (every element once; a node is returned only for its own id); From/To return graph.Empty for an absent id", func() {
+	r.Rule("C11.4", "graph view delegation: Edge, WeightedEdge, Weight, HasEdgeFromTo use the directed lookup, HasEdgeBetween the undirected one, and answer exactly `a link was found` (Weight: with the weight of that link); Node/Nodes cover allNodesMIMO (every element once; a node is returned only for its own id, and nil only when no element has the id); From/To return graph.Empty for an absent id", func() {
 		eb := p.Func(PkgN, "Network.edgeBetween")
 		// A query delegates either to edgeBetween(u, v, <direction>) itself or to another query of the same
 		// direction that does (HasEdgeFromTo as `n.Edge(u, v) != nil`, Weight through WeightedEdge), with its two
@@ -530,6 +526,12 @@ func C11(p *Prog, r *Run) {
 				visit(ret.Results[0], Guards(b), 0)
 			}
 			r.Check(okM, "graph.nodeWithID.match", p.Pos(nw.Pos()), "a node is returned only where its id was compared equal with the id asked for", "nodeWithID can return a node whose id was not compared equal with the id asked for: Node/From/To answer for another node")
+			// ... and answers nil only after the whole list was compared without a match (robust_c11.go)
+			explored := 0
+			whyC, witC := c11LookupComplete(p, nw, tn, &explored)
+			r.PathsExplored += explored
+			r.Check(whyC == "", "graph.nodeWithID.complete", p.Pos(nw.Pos()), "nil is answered only after every element of allNodesMIMO was compared with the id asked for and found different",
+				"nodeWithID can answer nil although allNodesMIMO holds a node with the id asked for ("+whyC+"): Node reports a present node as absent, From/To answer graph.Empty for it", witC...)
 		} else {
 			// no such helper in this tree: each of Node, From and To must carry the search itself
 			var missing []string
